@@ -23,7 +23,7 @@ if False:
     from .project import Project
 
 IMPORT_DELIMETERS = string.whitespace + '(,'
-IMPORT_END_DELIMETERS = string.whitespace + '),.;'
+IMPORT_END_DELIMETERS = string.whitespace + '),.;#\\([:'
 
 
 class Unresolved(object):
@@ -316,7 +316,7 @@ class FuncScope(Scope, Location, Resolvable):
         else:
             fnode = node  # type: FunctionDef  # type: ignore[assignment]
             self.name = fnode.name
-            self.declared_at = top.find_id_loc(' ' + fnode.name, np(fnode), 1, False)
+            self.declared_at = top.find_id_loc(fnode.name, np(fnode))
             self.location = get_first_body_node_loc(fnode.body) or (np(fnode.body[0])[0], np(fnode)[1] + 4)
             self.decorator_list = fnode.decorator_list
 
@@ -381,7 +381,7 @@ class ClassScope(Scope, Location, Resolvable):
         # type: (Scope, ClassDef, SourceScope) -> None
         Scope.__init__(self, parent, top)
         self.name = node.name
-        self.declared_at = top.find_id_loc(' ' + node.name, np(node), 1, False)
+        self.declared_at = top.find_id_loc(node.name, np(node))
         self.location = np(node.body[0])
         self.flow = self.top.add_flow(Flow('class', self))
         self._bases = node.bases
